@@ -1,6 +1,6 @@
 CONSTANTS
   Impl = "intended"
-  Clocks <- ClocksSmall
+  Clocks <- ClocksTiny
   Chans <- ChansSmall
   Partners = 0
   Groups = 16
